@@ -10,7 +10,10 @@ import (
 // C19: laid-out geometry (exact rationals) of every board of generated diagrams under dagre and ELK, for the
 // Lean Spec "containers enclose children, siblings do not overlap by more than 1 px" (shapes inside sequence
 // diagrams excluded, as the property says).
-func main() { hl.Main("C19", run) }
+func main() {
+	lay.MaybeChild()
+	hl.Main("C19", run)
+}
 
 func run(c *hl.Ctx) error {
 	if cs := c.ReplayCase(); cs != nil {
@@ -20,12 +23,12 @@ func run(c *hl.Ctx) error {
 	}
 	g := &lay.Gen{R: c.Rand()}
 	var jobs []lay.Job
-	nProg := lay.DevN(c.Pick(300, 6000))
+	nProg := lay.DevN(c.Pick(600, 8000))
 	weights := []string{"core", "styled", "styled", "grid", "grid", "near", "near", "nested", "nested", "seq", "names", "boards"}
 	for i := 0; i < nProg; i++ {
 		p := weights[i%len(weights)]
 		src := g.Program(p)
-		for _, e := range []string{"dagre", "elk"} {
+		for _, e := range lay.Engines(i/len(weights), 3) {
 			jobs = append(jobs, lay.Job{Src: src, Engine: e, Tag: p})
 		}
 	}
@@ -34,6 +37,9 @@ func run(c *hl.Ctx) error {
 		if rr == nil {
 			c.Count("budget:not-run")
 			continue
+		}
+		for _, ft := range lay.Features(rr) {
+			c.Count(rr.Engine + ":" + ft)
 		}
 		c.Emit(lay.GeoCase(rr))
 		c.Count("geo:" + jobs[i].Tag + ":" + rr.Engine)
